@@ -7,6 +7,7 @@ package bbc
 import (
 	"fmt"
 	"io"
+	"sync"
 
 	log "github.com/sirupsen/logrus"
 
@@ -18,9 +19,14 @@ import (
 // to receive and send Bundles over a Modem. However, based on the broadcasting nature of this CLA, addressing
 // specific recipients is not possible. Furthermore, attributing senders is also not possible.
 type Connector struct {
-	modem            Modem
-	permanent        bool
-	tid              byte
+	modem     Modem
+	permanent bool
+
+	// sendMutex serializes the transmissions of Send, which might be called concurrently. Two transmissions at once
+	// would take the same transmission ID and interleave their Fragments on the one shared medium.
+	sendMutex sync.Mutex
+	tid       byte
+
 	transmissions    map[byte]*IncomingTransmission
 	fragmentOut      chan Fragment
 	failTransmission chan byte
@@ -215,6 +221,9 @@ func (c *Connector) IsPermanent() bool {
 }
 
 func (c *Connector) Send(bndl bpv7.Bundle) error {
+	c.sendMutex.Lock()
+	defer c.sendMutex.Unlock()
+
 	var t, tErr = NewOutgoingTransmission(c.tid, bndl, c.modem.Mtu())
 	if tErr != nil {
 		return tErr
